@@ -474,6 +474,16 @@ func finish(p *PropDef, m *Merged, start time.Time, scratch string) int {
 	if len(vioLines) > 0 {
 		exit = 1
 	}
+	var skippedPanics int64
+	for k, v := range m.Counters {
+		if strings.HasPrefix(k, "skipped_panic") || k == "skipped_worker_death" {
+			skippedPanics += v
+		}
+	}
+	if skippedPanics > 0 && p.ID != "C03" {
+		fmt.Fprintf(os.Stderr, "%s: note: %d cases were skipped because the library panicked or killed a worker on them; a panic is a C03 matter and is reported by the C03 check, not here\n", p.ID, skippedPanics)
+		m.Notes = append(m.Notes, fmt.Sprintf("%d cases skipped because the library panicked on them (see C03)", skippedPanics))
+	}
 	writeEvidence(p, m, start, nviol, int(suppressed))
 	fmt.Fprintf(os.Stderr, "%s %s: states=%d transitions=%d evaluations=%d violations=%d (classes %d, known-suppressed %d) exhaustive=%v wall=%.1fs\n",
 		p.ID, m.Tier, m.Counters["states"], m.Counters["transitions"], m.Counters["evaluations"], nviol, len(classes), suppressed, m.Exhaustive, time.Since(start).Seconds())
